@@ -808,6 +808,9 @@ func (f *fragment) unprotectedSetRow(row *Row, rowID uint64) (changed bool, err 
 		f.storage.Containers.Remove(headContainerKey + i)
 	}
 
+	// Invalidate block checksum.
+	delete(f.checksums, int(rowID/HashBlockSize))
+
 	// From the given row, get the rowSegment for this shard.
 	seg := row.segment(f.shard)
 	if seg == nil {
@@ -868,6 +871,11 @@ func (f *fragment) unprotectedClearRow(rowID uint64) (changed bool, err error) {
 			f.storage.Containers.Remove(k)
 			changed = true
 		}
+	}
+
+	// Invalidate block checksum.
+	if changed {
+		delete(f.checksums, int(rowID/HashBlockSize))
 	}
 
 	// Clear the row in cache.
@@ -2225,6 +2233,12 @@ func (f *fragment) importValue(columnIDs []uint64, values []int64, bitDepth uint
 		_ = f.openStorage(true)
 		return err
 	}
+	// Invalidate the block checksums of every BSI row (exists, sign and
+	// bitDepth value rows).
+	for i := uint64(0); i < uint64(bitDepth)+bsiOffsetBit; i++ {
+		delete(f.checksums, int(i/HashBlockSize))
+	}
+
 	// We don't actually care, except we want our stats to be accurate.
 	f.incrementOpN(totalChanges)
 
@@ -2262,6 +2276,9 @@ func (f *fragment) importRoaring(ctx context.Context, data []byte, clear bool) e
 		if changes == 0 {
 			continue
 		}
+		// Invalidate block checksum.
+		delete(f.checksums, int(rowID/HashBlockSize))
+
 		f.rowCache.Add(rowID, nil)
 		if updateCache {
 			anyChanged = true
